@@ -133,6 +133,20 @@ def oracle_built(case) -> list:
     w = v1_atoms(*atoms)
     if angdiff(float(w), float(v1(*moved))) > 1e-12:
         out.append(D("C18:v1:atom-wrapper-differs", f"torsion_angle(atoms)={w!r} vs coords {v1(*moved)!r}"))
+    # the same questions through the Atom entry point, on the same atom values: reversed order, the first order again,
+    # and - asked first on fresh values - the reversed order before the forward one
+    wr = v1_atoms(*atoms[::-1])
+    w2 = v1_atoms(*atoms)
+    tolw = TOL + 1e-12 * (1 + float(np.abs(shift).max())) * 100
+    if math.isnan(float(wr)) or angdiff(float(wr), float(w)) > tolw:
+        out.append(D("C18:v1:atom-wrapper-reversal-changes-value", f"torsion_angle(a,b,c,d)={float(w):.9f} but torsion_angle(d,c,b,a)={float(wr):.9f}"))
+    if math.isnan(float(w2)) or angdiff(float(w2), float(w)) > 1e-12:
+        out.append(D("C18:v1:atom-wrapper-repeat-differs", f"{float(w):.9f} then {float(w2):.9f} for the same atoms"))
+    mats = [Atom(None, None, None, 1, "X", float(-p[0]), float(p[1]), float(p[2]), None) for p in moved]
+    mr = v1_atoms(*mats[::-1])
+    mf = v1_atoms(*mats)
+    if math.isnan(float(mf)) or angdiff(float(mf), float(mr)) > tolw:
+        out.append(D("C18:v1:atom-wrapper-reversal-changes-value", f"reversed asked first: {float(mr):.9f}, then forward {float(mf):.9f}"))
     # the same four points as the glycosidic torsion of a purine and of a pyrimidine residue
     from rnapolis.tertiary import Residue3D
     from rnapolis.common import ResidueAuth
